@@ -36,6 +36,7 @@ class Check:
         self.inconclusive = []
         self.notes = {}
         self.nontrivial = set()
+        self.nontrivial_extra = 0      # counted elsewhere (e.g. inside a Rust driver): added to the distinct count
         self.evaluations = 0
         self.known = [k for k in load_known() if k.get("property") == pid and k.get("status") == "open"]
         self.assumptions = []
@@ -84,7 +85,7 @@ class Check:
     def finish(self, rule: str, min_nontrivial=2, extra=None):
         cov = {
             "evaluations": int(self.evaluations),
-            "distinct_nontrivial": len(self.nontrivial),
+            "distinct_nontrivial": len(self.nontrivial) + self.nontrivial_extra,
             "rule": rule,
             "samples": self.samples if self.samples else ["<none>"],
             "observed": dict(self.counters),
@@ -92,9 +93,9 @@ class Check:
         cov.update(self.notes)
         if extra:
             cov.update(extra)
-        if len(self.nontrivial) < max(2, min_nontrivial) and not self.violations:
+        if len(self.nontrivial) + self.nontrivial_extra < max(2, min_nontrivial) and not self.violations:
             self.inconclusive.append(
-                f"too few non-trivial cases: {len(self.nontrivial)} < {max(2, min_nontrivial)}")
+                f"too few non-trivial cases: {len(self.nontrivial) + self.nontrivial_extra} < {max(2, min_nontrivial)}")
         ev = {
             "property_id": self.pid,
             "tier": self.tier,
@@ -126,5 +127,5 @@ class Check:
                 print(f"INCONCLUSIVE property={self.pid} reason={r}")
             sys.exit(3)
         print(f"{self.pid} {self.tier}: held on {self.evaluations} evaluations "
-              f"({len(self.nontrivial)} distinct non-trivial) in {ev['wall_s']}s")
+              f"({len(self.nontrivial) + self.nontrivial_extra} distinct non-trivial) in {ev['wall_s']}s")
         sys.exit(0)
